@@ -55,7 +55,7 @@ class Net:
                 self.links = getattr(self, "links", [])
                 self.links.append({"cside": b, "sside": a2, "c2s": bytearray(), "s2c": bytearray()})
                 b = b2
-            srv.pending.append((SockDouble(b, peer=ca, name=(ip, port), tap=self.tap if hasattr(self, "tap") else None), ca))
+            srv.pending.append((SockDouble(b, peer=ca, name=(ip, port), tap=self.tap if hasattr(self, "tap") else None, net=self), ca))
             self.log.append(("CONNECT", len(self.conns), ip, port, tls))
             self.conns.append({"id": len(self.conns), "ip": ip, "port": port, "tls": tls, "sock": None, "buf": bytearray(),
                                "open": False})
@@ -186,8 +186,8 @@ class ClientSock:
 
 class SockDouble:
     """server end of a socket pair that reports TCP-like addresses (a Unix socket pair has none)"""
-    def __init__(self, sock, peer, name, tap=None):
-        self._s, self._peer, self._name, self._tap = sock, peer, name, tap
+    def __init__(self, sock, peer, name, tap=None, net=None):
+        self._s, self._peer, self._name, self._tap, self._net = sock, peer, name, tap, net
 
     def getpeername(self):
         return self._peer
@@ -196,6 +196,15 @@ class SockDouble:
         return self._name
 
     def send(self, data):
+        # a throttled server-side socket: `net.server_send_cap` = bytes one non-blocking send takes (None: all);
+        # `net.server_send_eagain`: every other send takes nothing at all (EAGAIN)
+        cap = getattr(self._net, "server_send_cap", None)
+        if cap is not None:
+            if getattr(self._net, "server_send_eagain", False):
+                self._turn = not getattr(self, "_turn", False)
+                if self._turn:
+                    raise BlockingIOError(errno.EAGAIN, "send refused by the double")
+            data = bytes(data[:cap])
         n = self._s.send(data)
         if self._tap is not None and n:
             self._tap(self._peer, bytes(data[:n]))
